@@ -1251,7 +1251,7 @@ theorem shape_complete {st st' : NodeSt} {e : Entry} {evs : List Event} (h : Sha
     by_cases hk : k = e.key
     · subst hk
       simp only [if_true]
-      refine ⟨fun _ h2 => by cases h2, fun v h1 _ => ?_⟩
+      refine ⟨fun _ h2 => (by cases h2), fun v h1 _ => ?_⟩
       cases h1; exact List.mem_singleton.mpr rfl
     · simp only [hk, if_false]
       exact ⟨fun h1 h2 => absurd h2 h1, fun v h1 h2 => absurd h1 h2⟩
@@ -1299,5 +1299,100 @@ theorem applyEntries_unparsable (now : Nat) (st : NodeSt) (e : Entry) (es : List
     simp [applyEntry, hv, hint, hkey, hp, hne]
   rw [applyEntries_cons, hr]
   rfl
+
+
+/-! ## unconditional facts about the local operations, witnesses -/
+
+theorem visible_writeOwn (s : CState) (k : String) (mk : Nat → Entry) :
+    visible (writeOwn s k mk) = visible s := visible_setOwn s _
+
+theorem visible_upsertLocal (s : CState) (k v : String) : visible (upsertLocal s k v) = visible s := by
+  unfold upsertLocal
+  split
+  · split
+    · rfl
+    · exact visible_writeOwn s k _
+  · exact visible_writeOwn s k _
+
+theorem visible_deleteLocal (s : CState) (k : String) : visible (deleteLocal s k) = visible s := by
+  unfold deleteLocal
+  split
+  · rfl
+  · split
+    · rfl
+    · exact visible_writeOwn s k _
+
+theorem visible_leaveLocal (s : CState) : visible (leaveLocal s) = visible s := by
+  unfold leaveLocal
+  simp only []
+  split
+  · rfl
+  · exact visible_setOwn s _
+
+theorem visible_compactLocal (s s' : CState) (thr : Nat) (h : compactLocal s thr = some s') :
+    visible s' = visible s := by
+  unfold compactLocal at h
+  simp only [] at h
+  split at h
+  · cases h; rfl
+  · split at h
+    · cases h
+    · cases h; exact visible_setOwn s _
+
+def Op.isLocal : Op → Bool
+  | .upsertLocal _ _ => true
+  | .deleteLocal _ => true
+  | .leaveLocal => true
+  | .compactLocal _ => true
+  | _ => false
+
+theorem run_local (s : CState) (op : Op) (h : op.isLocal = true) :
+    (op.run s).2 = [] ∧ visible (op.run s).1 = visible s := by
+  cases op with
+  | upsertLocal k v => exact ⟨rfl, visible_upsertLocal s k v⟩
+  | deleteLocal k => exact ⟨rfl, visible_deleteLocal s k⟩
+  | leaveLocal => exact ⟨rfl, visible_leaveLocal s⟩
+  | compactLocal thr =>
+    refine ⟨rfl, ?_⟩
+    simp only [Op.run]
+    cases hc : compactLocal s thr with
+    | none => rfl
+    | some s' => exact visible_compactLocal s s' thr hc
+  | applyDigest d => cases h
+  | applyDelta now d => cases h
+  | updateLiveness susp now => cases h
+  | removeExpiredAt t => cases h
+
+/-- hostile input: node `b` first shows `k = v`, then an entry for the ordinary key `k`
+arrives with `Internal = true` -/
+def hostileInternalOps : List Op :=
+  [.applyDelta 0 [{ id := "b", addr := "B", entries := [{ key := "k", value := "v", version := 1 }] }],
+   .applyDelta 0 [{ id := "b", addr := "B",
+                    entries := [{ key := "k", value := "", version := 2, internal := true }] }]]
+
+/-- what observers receive when the owner `b` calls `UpsertLocal("_internal:left", "x")` and
+then `LeaveLocal()` (observation O1: the package does not reject reserved keys) -/
+def reservedKeyOps : List Op :=
+  [.applyDelta 0 [{ id := "b", addr := "B", entries := [{ key := leftKey, value := "x", version := 1 }] }],
+   .applyDelta 0 [{ id := "b", addr := "B",
+                    entries := [{ key := leftKey, value := "", version := 2, internal := true }] }]]
+
+/-- a two-node history: digest, two writes, a tombstone, a compaction marker that drops a
+key whose deletion was never seen, a new write, the owner leaving, expiry -/
+def sampleOps : List Op :=
+  [.applyDigest [{ id := "b", addr := "B", version := 7, left := false }],
+   .applyDelta 0 [{ id := "b", addr := "B",
+                    entries := [{ key := "k1", value := "v1", version := 1 },
+                                { key := "k2", value := "v2", version := 2 }] }],
+   .upsertLocal "own" "x",
+   .applyDelta 0 [{ id := "b", addr := "B",
+                    entries := [{ key := "k1", value := "", version := 3, deleted := true }] }],
+   .applyDelta 0 [{ id := "b", addr := "B",
+                    entries := [{ key := compactKey, value := "4", version := 5, internal := true },
+                                { key := "k3", value := "v3", version := 6 }] }],
+   .updateLiveness (fun id => id = "b") 10,
+   .updateLiveness (fun _ => false) 11,
+   .applyDelta 12 [{ id := "b", addr := "B",
+                     entries := [{ key := leftKey, value := "", version := 7, internal := true }] }]]
 
 end Piko.Gossip.C14
